@@ -125,7 +125,12 @@ func (ts TypeSpecifier) parent() TypeSpecifier {
 		if IsValidFHIRPathElement(ts.typeName) {
 			return TypeSpecifier{FHIR, "Element"}
 		}
-		return TypeSpecifier{FHIR, "DomainResource"}
+		if protofields.IsValidResourceType(ts.typeName) {
+			return TypeSpecifier{FHIR, "DomainResource"}
+		}
+		// Neither a datatype nor a resource: a nested backbone component of a
+		// resource (e.g. Patient.contact), which is a BackboneElement.
+		return TypeSpecifier{FHIR, "BackboneElement"}
 	}
 }
 
